@@ -1204,6 +1204,129 @@ def rule_compound_assign(chk, prog, tier):
     r.exhaustive = True
 
 
+# ------------------------------------------------------------------ C01.o short-circuit values
+
+def rule_shortcircuit(chk, prog, tier):
+    r = chk.rule('C01.o', '&&, || and ?: evaluate the operands C prescribes, in order, and yield the prescribed value: a && b is 0 or (b != 0), a || b is 1 or (b != 0), c ? x : y the selected arm; checked by running the emitted blocks (jnz, phi) for every truth assignment of the operands',
+                 floor=13, oracle='C11 6.5.13p3-4, 6.5.14p3-4, 6.5.15p4')
+    fe = prog.require_func('funcexpr', 'qbe.c')
+    # expression shapes over leaves a, b, c, d
+    def AND(x, y): return ('&&', x, y)
+    def OR(x, y): return ('||', x, y)
+    def Q(c, x, y): return ('?', c, x, y)
+    shapes = [AND('a', 'b'), OR('a', 'b'), Q('a', 'b', 'c'), AND(AND('a', 'b'), 'c'), OR(OR('a', 'b'), 'c'), AND('a', OR('b', 'c')), OR('a', AND('b', 'c')), OR(AND('a', 'b'), AND('c', 'd')),
+              Q(AND('a', 'b'), 'c', 'd'), Q('a', AND('b', 'c'), OR('c', 'd')), AND(Q('a', 'b', 'c'), 'd'), Q('a', Q('b', 'c', 'd'), 'b'), OR('a', Q('b', 'c', 'd'))]
+    def leaves(t):
+        return [t] if isinstance(t, str) else [x for y in t[1:] for x in leaves(y)]
+    def refeval(t, env, trace):
+        """-> value: ('bool', leaf) means (leaf != 0); ('val', leaf) the leaf's value; int constants"""
+        if isinstance(t, str):
+            trace.append(t); return ('val', t)
+        def truth(v):
+            return v if isinstance(v, int) else env[v[1]]
+        def asbool(v):
+            return v if isinstance(v, int) else ('bool', v[1])
+        if t[0] == '&&':
+            l = refeval(t[1], env, trace)
+            if not truth(l): return 0
+            return asbool(refeval(t[2], env, trace))
+        if t[0] == '||':
+            l = refeval(t[1], env, trace)
+            if truth(l): return 1
+            return asbool(refeval(t[2], env, trace))
+        c = refeval(t[1], env, trace)
+        return refeval(t[2] if truth(c) else t[3], env, trace)
+    import itertools
+    for shape in shapes:
+        def runner(it):
+            it.MAX_STEPS = 400000
+            w = World(prog, it=it, target='x86_64-sysv')
+            def build(t):
+                if isinstance(t, str):
+                    x = w.mkexpr('EXPRIDENT', w.t('int')); x.obj.ilabel = t; return x
+                if t[0] in ('&&', '||'):
+                    return w.mkexpr('EXPRBINARY', w.t('int'), None, op=ev(prog, 'TLAND' if t[0] == '&&' else 'TLOR'), u__binary__l=build(t[1]), u__binary__r=build(t[2]))
+                return w.mkexpr('EXPRCOND', w.t('int'), build(t[1]), u__cond__t=build(t[2]), u__cond__f=build(t[3]))
+            F = Obj('func', 'heap')
+            start = it.call('mkblock', [Ptr(it.mkstr(list(b'start'), 's'), (0,))])
+            F.f[('start',)] = start; F.f[('end',)] = start; F.f[('lastid',)] = 0
+            evals = {}
+            def funcexpr(i2, a, e):
+                lbl = getattr(a[1].obj, 'ilabel', None)
+                if lbl is None: return i2.call(fe, a)
+                b = i2.load(a[0].obj, a[0].path + ('end',))
+                if i2.load(b.obj, b.path + ('jump', 'kind')): raise Unsupported('evaluation in a terminated block')
+                evals.setdefault(b.obj.id, []).append(lbl)
+                v = val('v:' + lbl); v.obj.vkind = ('val', lbl); return v
+            def convert(i2, a, e):
+                src = a[3]
+                v = val('b'); v.obj.vkind = ('boolof', src)
+                return v
+            it.models.update({'funcexpr': funcexpr, 'convert': convert, 'calcvla': lambda i2, a, e: None, 'mkintconst': lambda i2, a, e: ('const', a[0]),
+                              'xmalloc': lambda i2, a, e: Ptr(Obj('heap@%s' % e.get('line'), 'heap'), ()),
+                              'error': lambda i2, a, e: (_ for _ in ()).throw(Terminal('error', cmodel.fmt_of(i2, a, 1))),
+                              'fatal': lambda i2, a, e: (_ for _ in ()).throw(Terminal('fatal', cmodel.fmt_of(i2, a, 0)))})
+            res = it.call(fe, [Ptr(F, ()), build(shape)])
+            # read the graph
+            J = {ev(prog, k): k for k in ('JUMP_NONE', 'JUMP_JMP', 'JUMP_JNZ', 'JUMP_RET', 'JUMP_HLT')}
+            blocks = {}; b = start; order = []
+            while b is not None:
+                o = b.obj
+                blocks[o.id] = {'evals': evals.get(o.id, []), 'jk': J[o.f[('jump', 'kind')]], 'arg': o.f.get(('jump', 'arg')), 'b0': o.f.get(('jump', 'blk', 0)), 'b1': o.f.get(('jump', 'blk', 1)),
+                                'phi': o.f.get(('phi', 'res', 'kind')), 'pb': (o.f.get(('phi', 'blk', 0)), o.f.get(('phi', 'blk', 1))), 'pv': (o.f.get(('phi', 'val', 0)), o.f.get(('phi', 'val', 1))), 'obj': o,
+                                'next': o.f.get(('next',))}
+                order.append(o.id); b = o.f.get(('next',))
+            return blocks, start.obj.id, res
+        runs = explore(prog, runner, {}, max_runs=4, on_unsupported='keep')
+        if len(runs) != 1 or runs[0].outcome != 'return':
+            raise AnalysisBroken('funcexpr %s: %s %s' % (shape, runs[0].outcome if runs else '?', runs[0].detail if runs else ''))
+        blocks, startid, res = runs[0].value
+        def vk(v, phivals):
+            """value description of an IR value"""
+            if isinstance(v, tuple) and v[0] == 'const': return v[1]
+            if isinstance(v, Ptr):
+                if v.path == ('phi', 'res'): return phivals.get(v.obj.id, ('?',))
+                k = getattr(v.obj, 'vkind', ('?',))
+                if k[0] == 'boolof':
+                    inner = vk(k[1], phivals)
+                    if isinstance(inner, int): return int(bool(inner))
+                    if inner[0] == 'val': return ('bool', inner[1])
+                    return inner
+                return k
+            return ('?',)
+        L = sorted(set(leaves(shape)))
+        bad = None
+        for bits in itertools.product((0, 1), repeat=len(L)):
+            env = dict(zip(L, bits))
+            trace = []; want = refeval(shape, env, trace)
+            # run the blocks
+            cur = startid; pred = None; got_trace = []; phivals = {}; steps = 0
+            while cur is not None and steps < 100:
+                steps += 1
+                blk = blocks[cur]
+                if blk['phi']:
+                    k = 0 if (blk['pb'][0] is not None and blk['pb'][0].obj.id == pred) else 1 if (blk['pb'][1] is not None and blk['pb'][1].obj.id == pred) else None
+                    phivals[cur] = vk(blk['pv'][k], phivals) if k is not None else ('phi-from-non-predecessor',)
+                got_trace += blk['evals']
+                pred = cur
+                if blk['jk'] == 'JUMP_JNZ':
+                    v = vk(blk['arg'], phivals)
+                    t_ = v if isinstance(v, int) else env.get(v[1]) if len(v) > 1 else None
+                    if t_ is None: bad = 'branch on an unknown value %s' % (v,); break
+                    cur = (blk['b0'] if t_ else blk['b1']).obj.id
+                elif blk['jk'] == 'JUMP_JMP': cur = blk['b0'].obj.id
+                elif blk['jk'] == 'JUMP_NONE': cur = blk['next'].obj.id if blk['next'] is not None else None
+                else: bad = 'unexpected terminator %s' % blk['jk']; break
+            if bad: break
+            got = vk(res, phivals)
+            if got_trace != trace or got != want:
+                bad = 'operands %s: C evaluates %s and yields %s; the emitted blocks evaluate %s and yield %s' % (env, trace, want, got_trace, got); break
+        def show(t):
+            return t if isinstance(t, str) else ('(%s ? %s : %s)' % tuple(show(x) for x in t[1:]) if t[0] == '?' else '(%s %s %s)' % (show(t[1]), t[0], show(t[2])))
+        r.instance(bad is None, 'shortcircuit:' + show(shape), 'qbe.c:%s' % fe.get('line'), bad or '')
+    r.exhaustive = False
+
+
 def run(chk, tier):
     prog = facts.programs()['cproc-qbe']
     chk.guard('C01.a', lambda: rule_binop(chk, prog, tier))
@@ -1220,5 +1343,6 @@ def run(chk, tier):
     chk.guard('C01.l', lambda: rule_return(chk, prog, tier))
     chk.guard('C01.m', lambda: rule_lvalues(chk, prog, tier))
     chk.guard('C01.n', lambda: rule_compound_assign(chk, prog, tier))
+    chk.guard('C01.o', lambda: rule_shortcircuit(chk, prog, tier))
     from props import c01f
     chk.guard('C01.f', lambda: c01f.rule_statements(chk, prog, tier))
